@@ -263,6 +263,10 @@ U("init_defaults_abort", entry="h_init_defaults_abort", func="cfg_init_defaults 
 U("addtsec", entry="h_addtsec", func="cfg_addtsec, cfg_gettsec, cfg_opt_gettsec, cfg_opt_gettsecidx", cbmc=unw(8) + NOOOM, label="bounded(one existing instance; titles 1 byte over all bytes; 4 case-rule combinations; store by contract)",
   props=["C09", "C10", "C06", "C18", "C02"], cost=20, **ENT, **ENTC)
 
+for _sc in ("assign", "list", "append", "call", "emptysec", "sec", "titled", "nested", "twoassign"):
+    U("parse_script_" + _sc, entry="h_script_" + _sc, cbmc=unw(20) + NOOOM, defs={"quick": []},
+      label="bounded(one concrete token script: undeclared item '%s' followed by i = 5; nested activations run for real)" % _sc, props=["C12", "C06", "C02"], cost=10, **PARSEC)
+
 # ------------------------------------------------------------------ per-property text for MANIFEST / evidence
 HOOK_COMMITS = ["b37b503"]
 NOT_APPLICABLE = {}
@@ -271,9 +275,15 @@ STEP_NOTE = ("The parser's token loop is covered for token sequences of every le
              "(a renamed/added local breaks compilation -> exit 2) and on the carriers' havoc being as wide as the callees' effects. ")
 PROPERTY_INFO = {
     "C01": {"level": "other",
-            "text": "cfg_parse_internal() refines the reference token automaton (spec/grammar_spec.h) - proved for every state/token/flag word by base+step units; "
-                    "cfg_setopt() arms (string, parse callbacks, section arm with title merge / duplicate refusal / per-instance copies) checked against the store contract on bounded shapes (<= 2 instances, 1-byte titles).",
+            "text": "cfg_parse_internal() refines the reference token automaton (spec/grammar_spec.h) - proved for every state / token / flag word / callee verdict by the base+step units of the hand-applied loop-invariant rule, every nesting depth through the nested-call contract; "
+                    "cfg_setopt() arms (string, parse callbacks, section arm with title merge / duplicate refusal / per-instance copies), cfg_init_defaults (14 option kinds), cfg_addopt, cfg_getopt_leaf, cfg_init, cfg_parse_fp/buf/file checked against their contracts on bounded shapes.",
             "note": STEP_NOTE + "Not decided: end of input inside a section body (the nested parse answers EOF for '}' and for real end of input alike), the composition scanner->parser->getters (argued in DESIGN 5.C01)."},
+    "C02": {"level": "other",
+            "text": "Every unit of every property runs with CBMC's pointer, bounds, overflow, double-free and use-after-free obligations on the real code; in addition: the scanner tables never leave their bounds and always advance (L-DFA), the default ECHO rule (stdout) is unreachable, every returned token carries a non-NULL text, the scratch buffer stays well-formed through growth, termination of every bounded loop (unwinding assertions), abort()/exit() sites are finding units.",
+            "note": "Memory safety inside flex's buffer management and driver loop is assumed; stack usage is decided only as 'recursion depth is unbounded' (recorded finding); string walks are bounded (see units)."},
+    "C03": {"level": "other",
+            "text": "The generated scanner tables are proved to simulate four hand-written reference automata (spec/lex_spec.h) for every state pair and every byte (L-DFA: which rule fires and how much it matches, for inputs of every length); every rule action is checked against the reference decoding of its lexical form for token texts up to 4 (quick) / 6 (thorough) bytes and 5 scratch-buffer shapes (L-ACT): named / octal / hex escapes, continuation lines, single-quote rules, ${NAME} / ${NAME:-default} with a ghost environment, comments.",
+            "note": "The flex driver loop (longest match, earliest rule, back-up) and sscanf/getenv/isspace are assumed contracts; the witness relation is regenerated and re-checked on every run."},
     "C04": {"level": "other",
             "text": "cfg_setopt() INT/FLOAT/BOOL arms and cfg_parse_boolean() under contract; postconditions taken from the statement (spec/num_spec.h). "
                     "Integer and boolean tokens: every token up to 4 (quick) / 6 (thorough) bytes over all byte values, every entry errno - bounded stand-in. "
@@ -281,28 +291,49 @@ PROPERTY_INFO = {
             "note": "strtol/strtod/strcasecmp/strspn are assumed contracts (C11).",
             "explanation": "cfg_setopt() INT/FLOAT/BOOL arms and cfg_parse_boolean() checked against spec/num_spec.h by CBMC: every token up to the stated length over all 256 byte values, every entry errno, every flag word.",
             "assumptions": []},
+    "C05": {"level": "other",
+            "text": "Printer side: cfg_opt_nprint_var and cfg_opt_print_pff_indent produce exactly the reference text (spec/print_spec.h; strings: quote and backslash escaped; %ld / %f pinned). Scanner side: L-DFA / L-ACT give scan == reference decoding. Lemma units over the spec functions: decode_dq(print_str(s)) == s and the same for titles, for every byte string up to 3 (quick) / 4 (thorough) bytes; the failing families (${...} in values, quotes / backslashes in titles) are recorded findings.",
+            "note": "%f / strtod agreement is libc's (assumed: 'to the printed precision'); whole-tree round trip and idempotence are compositions argued from the leaf lemmas and the layout contract."},
     "C06": {"level": "other",
-            "text": "Parser side: in every state and for every token a rejection is reported in the same iteration through the current context's error function, or has one of the silent causes (callback veto, allocation failure); accepted steps deliver no diagnostic; sections inherit file/line/error function (cfg_setopt section arm, state 5 hook contract). Setters: a refused text is reported.",
-            "note": STEP_NOTE + "Scanner side (newline counting per lexical form, restart per include) is decided by the scanner units where they exist; the text of messages is not checked."},
+            "text": "Parser: in every state and for every token a rejection is reported in the same iteration through the current context's error function, or has one of the silent causes (callback veto, allocation failure); accepted steps deliver no diagnostic; sections inherit file/line/error function. Scanner: every rule action advances cfg->line by exactly the number of newline bytes in its token (all forms), the error token is returned exactly with a diagnostic; include / end-of-include save and restore file name and line; cfg_parse_fp maps rejection to the parse-error code.",
+            "note": STEP_NOTE + "The text of messages is not checked."},
     "C07": {"level": "other",
-            "text": "Ownership contracts with CBMC's leak / double-free / use-after-free obligations on closed harnesses: cfg_free_value (every type, callbacks), cfg_addval, cfg_opt_setcomment, cfg_opt_setmulti (both outcomes), cfg_opt_rmnsec/rmtsec (shared search path detached, slot released), cfg_setopt pointer arm (release order) and section arm, and every exit of one parser iteration (pending annotation, title, call arguments).",
+            "text": "Ownership contracts with CBMC's leak / double-free / use-after-free obligations on closed harnesses: cfg_free_value (every type, callbacks), cfg_free, cfg_free_opt_array (through the copy units), cfg_addval, cfg_opt_setcomment, cfg_opt_setmulti (both outcomes), cfg_opt_rmnsec/rmtsec (shared search path detached, slot released), cfg_setopt pointer and section arms, call_function, every exit of one parser iteration (pending annotation, title, call arguments), file handles of include / end-of-include / cfg_parse / cfg_parse_buf / default parsing (ghost open-set).",
             "note": "All shapes bounded (<= 3 values, one nesting level; nested cfg_free is a contract carrier). " + STEP_NOTE},
+    "C08": {"level": "other",
+            "text": "Reset invariant: cfg_scan_fp_end() leaves the scanner quiescent (top-level context, no scratch buffer, one source popped) from every state; cfg_parse_fp / cfg_parse_buf / cfg_parse / default parsing push and pop exactly one source on every outcome; a failed include costs no include level; cfg_free(root) tears the scanner down - checked with every static of confuse.c arbitrary (no hidden history); errno independence of conversions (C04).",
+            "note": "The relational claim (same result as in a fresh process) follows from the reset invariant plus determinism (argued). A parse aborted inside an included file leaves the include entry (recorded in DESIGN 7). flex's buffer stack is an assumed contract."},
     "C09": {"level": "other",
             "text": "Every setter / list / bulk / section add-remove function is checked against the abstract store on every well-formed option state with <= 2 (quick) / 3 (thorough) values: whole-view postconditions (other values keep place and content), wrong type / illegal index / unknown name fail without effect.",
             "note": "Operation sequences are covered as 'from every well-formed state, one call' (each call re-establishes well-formedness); flag words are literal representatives of every RESET/LIST/MULTI combination."},
     "C10": {"level": "other",
-            "text": "Failure frames: for each refusing call (bulk set with a failing element at every position, vetoed by-name setters, wrong type / illegal index, unconvertible text on a set scalar, removing a missing section, duplicate title with unique titles) the option is compared bit-for-bit with a snapshot (values, count, order, annotation pointer, flags).",
-            "note": "Bounded shapes (<= 2/3 values). cfg_setopt on a list / empty / default-holding option appends its slot before converting; that case is outside the statement's list for sections and is recorded in DESIGN 7."},
+            "text": "Failure frames: for each refusing call (bulk set with a failing element at every position, vetoed by-name setters, wrong type / illegal index, unconvertible text on a set scalar, removing a missing section, duplicate title) the option is compared bit-for-bit with a snapshot (values, count, order, annotation pointer, flags).",
+            "note": "Bounded shapes (<= 2/3 values). cfg_setopt on a list / empty / default-holding option appends its slot before converting (DESIGN 7)."},
+    "C11": {"level": "other",
+            "text": "parse_title against its reference for every qualifier text up to 5/7 bytes; cfg_getopt / cfg_getsec (cfg_getopt_secidx, cfg_opt_gettsecidx, cfg_getopt_leaf) against step-by-step navigation (spec_resolve) on two- and three-level trees for every path up to 3 (all flag combinations) / 5 bytes, including termination (unwinding assertions) and 'nothing changes'; cfg_getopt_array through its extracted copy with the recursion cut by contract.",
+            "note": "Bounded: longer paths / deeper trees are not seen. Index qualifiers in octal/hex/sign spelling, duplicated separators in the middle and text glued to a closing quote are not judged (statement silent)."},
     "C12": {"level": "other",
-            "text": "Unknown-name detection and the skip states 10-15 of cfg_parse_internal() are checked in the step unit: with ignore-unknown an undeclared name enters the skipper without diagnostic, the skipper performs no store / lookup / callback, delivers no diagnostic on accepted steps, its nested activation only answers continue/reject, and sections inherit the flag (cfg_setopt section arm).",
-            "note": STEP_NOTE + "The skipper's transition table is pinned to the current one; conformance of whole skipped items to the reference grammar is not decided by the step unit (DESIGN 5.C12)."},
+            "text": "Unknown-name detection and the skip states 10-15 are checked in the step unit (no store / lookup / callback / diagnostic while skipping; nested activation answers only continue/reject; sections inherit the flag, cfg_init sets it before defaults). Whole undeclared items are checked on 9 concrete token scripts run through the real function: assignment, list and call are skipped as the language defines; append and every section form are recorded findings.",
+            "note": STEP_NOTE + "The skipper's transition table is pinned; scripts are single concrete inputs, not a proof over all items."},
+    "C13": {"level": "other",
+            "text": "Bookkeeping and failure behaviour of includes: cfg_include (argument count), cfg_lexer_include (depth limit, resolution like a top-level name, unresolved / unopenable = reported error with no level lost, saved name/line/handle, line 1), the end-of-input action (restores name and line, closes exactly the handle the include opened, pops one source), cfg_scan_fp_begin/end; cfg_searchpath only ever yields regular files.",
+            "note": "The textual splice itself (tokens of the included file appear in place) is flex's buffer stack: assumed. A directory without search path and an abort inside an include are recorded findings."},
     "C14": {"level": "other",
-            "text": "Callback contracts: cfg_setopt() calls the value-parsing callback at most once per value with exactly the token text and stores what it produced, a non-zero result fails the assignment; the parser runs the validation callback right after each store in states 2,3,4,5 and a veto ends the parse with no later action; function calls pass all collected arguments; by-name setters honour the pre-set validation callback (veto, rewrite).",
-            "note": STEP_NOTE + "call_function()'s argv assembly and cfg_getopt_array() are covered when their units exist (see units list in the evidence)."},
+            "text": "Callback contracts: cfg_setopt() calls the value-parsing callback at most once per value with exactly the token text and stores what it produced, a non-zero result fails the assignment; the parser runs the validation callback right after each store in states 2,3,4,5 and a veto ends the parse with no later action; call_function passes exactly the collected arguments in order; by-name setters honour the pre-set validation callback (veto, rewrite); cfg_getopt_array resolves registration paths to the template of multi sections.",
+            "note": STEP_NOTE},
     "C15": {"level": "other",
-            "text": "Grammar side: the reference automaton makes a comment token transparent in every state; the step unit proves it for the name state and the skipper's waiting states and reports the other states as a recorded finding; with annotations on, the pending comment is copied, attached right after the first stored value and released on every exit. cfg_opt_setcomment under contract.",
-            "note": STEP_NOTE + "Scanner side (comment forms yield one COMMENT token, trimming) belongs to the scanner units."},
+            "text": "Scanner: each comment style yields exactly one comment token with the trimmed text and no line drift, comment forms exist only at top level (L-DFA). Grammar: the reference automaton makes a comment token transparent in every state; proved for the name state and the skipper's waiting states, the other states are a recorded finding; the pending annotation is copied, attached right after the first stored value and released on every exit; cfg_opt_setcomment and the annotation line of the printer under contract.",
+            "note": STEP_NOTE},
+    "C16": {"level": "other",
+            "text": "cfg_dupopt_array: the copy is fresh, every owned string a private copy (NULL iff NULL), nested declarations copied not shared, scalars and callbacks carried over, the source untouched also when the copy fails half-way; cfg_free_opt_array releases exactly the copy; cfg_init works on the copy; the section arm gives every instance its own copy of the sub-options and private name / title / file name; setters store private copies.",
+            "note": "Bounded(<= 2 options, one nesting level). 'Interleavings of two contexts' are covered as: no function writes outside the objects reachable from its own arguments (frames of the store units), not as a two-run experiment."},
+    "C17": {"level": "other",
+            "text": "cfg_searchpath (extracted copy, recursion by contract): absolute names bypass the list and must be regular files, relative names are taken from the oldest directory first, directories / missing files never match, results fresh; cfg_make_fullpath; cfg_tilde_expand for every name up to 4/6 bytes with the passwd database as ghost (exact account name, NUL-terminated; unknown user unchanged) and every static arbitrary (no cached answers); cfg_add_searchpath prepends; cfg_parse and cfg_lexer_include resolve the same way.",
+            "note": "The real file system and passwd database are assumed contracts."},
     "C18": {"level": "other",
-            "text": "Every unit above runs with any allocation free to fail (CBMC 6 default): failure-side postconditions on cfg_addval, cfg_opt_getval, setters, cfg_opt_setnstr (old string kept), cfg_opt_setcomment, cfg_setopt arms; the section arm's half-built instance is a recorded finding.",
-            "note": "Any subset of allocations may fail, which contains the single-fault enumeration; bounded shapes."},
+            "text": "Every unit runs with any allocation free to fail (CBMC 6 default) unless stated: failure-side postconditions on cfg_addval, cfg_opt_getval, setters, cfg_opt_setnstr (old string kept), cfg_opt_setcomment, cfg_setopt arms, cfg_dupopt_array (source intact, nothing leaked), cfg_init, cfg_addopt, call_function, parse_title, cfg_parse_fp/buf; the section arm's half-built instance and abort() on an unparsable default are recorded findings.",
+            "note": "Any subset of allocations may fail, which contains the single-fault enumeration; bounded shapes; scanner-internal allocations out of scope (as the property says)."},
+    "C19": {"level": "other",
+            "text": "cfg_print_pff_indent: every option the effective filter accepts is handed to the option printer exactly once in declaration order, with the effective filter (own, else inherited) and the same depth, nothing else; cfg_opt_print_pff_indent: reference layout for 14 option shapes incl. sections (header, body once per instance one level deeper under the same filter, footer), lists, unset scalars commented out, print callback replacing the value format for exactly that option; the hook setters.",
+            "note": "Bounded(<= 3 options / values); byte-exact layout only as far as spec/print_spec.h fixes it."},
 }
